@@ -350,7 +350,7 @@ def gen_scenario(seed, focus="C20"):
             for k, t in op["targets"].items():
                 for f in t["files"]:
                     states[f] = "synced"
-    twin_check = [idx for idx, o in enumerate(ops) if o["op"] != "env"][:1] if ch.chance("twin", 0.1) else []
+    twin_check = [idx for idx, o in enumerate(ops) if o["op"] not in ("env", "env_transform")][:1] if ch.chance("twin", 0.1) else []
     return {"engine": "project", "seed": seed, "focus": focus, "knobs": knobs, "files": files, "ops": ops, "twin_check": twin_check}
 
 
